@@ -10,7 +10,11 @@ func c19Response(tag string) spec.Response {
 	var r spec.Response
 	r.Description = vrfStr(tag+".desc", 2)
 	if vrfBool(tag + ".isref") {
-		r.Ref = spec.MustCreateRef("#/responses/x")
+		if vrfBool(tag + ".isref.wholedoc") {
+			r.Ref = spec.MustCreateRef("responses/notFound.json") // a $ref to a whole document (no fragment)
+		} else {
+			r.Ref = spec.MustCreateRef("#/responses/x")
+		}
 	}
 	return r
 }
@@ -42,6 +46,10 @@ func c19Operation(tag string) *spec.Operation {
 
 func c19PathItem(tag string) spec.PathItem {
 	var pi spec.PathItem
+	if vrfBool(tag + ".ref") {
+		// a path item may carry a $ref beside its own operations
+		pi.Ref = spec.MustCreateRef("#/x-shared/pathitem")
+	}
 	pi.Get = c19Operation(tag + ".get")
 	pi.Put = c19Operation(tag + ".put")
 	pi.Post = c19Operation(tag + ".post")
